@@ -26,25 +26,13 @@ def _ra():
 
 
 def priorities(spec):
-    """P-user: user > supervisor > connections into it > their producers > ... (demand driven)."""
+    """P-user (demand driven): user > supervisor > its input connections > everything else (round-robin among them)."""
     prio = {"user": 0}
     sup = spec["supervisor"]
-    dist = {sup: 0}
-    frontier = [sup]
-    while frontier:
-        nxt = []
-        for n in frontier:
-            for e in spec["edges"]:
-                if e["n"] == n and e["o"] not in dist:
-                    dist[e["o"]] = dist[n] + 1
-                    nxt.append(e["o"])
-        frontier = nxt
     for n in spec["nodes"]:
-        dist.setdefault(n, 9)
-    for n, d in dist.items():
-        prio[n] = 1 + 2 * d
+        prio[n] = 1 if n == sup else 9
     for e in spec["edges"]:
-        prio[f"{e['n']}/{e['o']}"] = 2 + 2 * dist[e["n"]]
+        prio[f"{e['n']}/{e['o']}"] = 2 if e["n"] == sup else 9
     return prio
 
 
@@ -128,7 +116,8 @@ def summarize_record(g):
     for name, w in g._async_nodes.items():
         if rec is not None:
             nr = rec.nodes[name]
-            out[name] = dict(steps=_steps_summary(nr.steps), inputs={o: _msgs_summary(ir.messages) for o, ir in nr.inputs.items()})
+            out[name] = dict(steps=_steps_summary(nr.steps), inputs={o: _msgs_summary(ir.messages) for o, ir in nr.inputs.items()},
+                             phase=float(nr.info.phase), in_phase={o: float(ir.info.phase) for o, ir in nr.inputs.items()})
             continue
         fallback.append(name)
         steps = w._record_steps or []
@@ -142,7 +131,7 @@ def summarize_record(g):
         for _, c in w.inputs.items():
             ms = [m for m in (c._record_messages or []) if m.seq_in <= last]
             ins[c.connection.output_node.name] = _msgs_summary(jax.tree_util.tree_map(lambda *x: onp.array(x), *ms)) if ms else dict(_EMPTY_MSGS)
-        out[name] = dict(steps=st, inputs=ins)
+        out[name] = dict(steps=st, inputs=ins, phase=float(w.node.phase), in_phase={c.connection.output_node.name: float(c.connection.phase) for c in w.inputs.values()})
     return out, fallback, rec
 
 
@@ -175,10 +164,11 @@ def run_job(job, keep_graph=False):
     clock = job.get("clock", "SIM")
     gran = job.get("gran", "G1")
     policy = job.get("policy", "prio")
-    S = vs.new_scheduler(policy=policy, prio=priorities(spec), line_targets=_line_targets(ra) if gran == "G2" else None, max_steps=job.get("max_steps", 60000))
+    S = vs.new_scheduler(policy=policy, prio=priorities(spec), line_targets=_line_targets(ra) if gran == "G2" else None, max_steps=job.get("max_steps", 4000))
     trace = []
     vtime = ra.time  # the patched VTime instance
-    nodes, sup = build_nodes(spec, xp="np", trace=trace, clock=clock, vtime=vtime)
+    jit_step = bool(job.get("jit_step", False))
+    nodes, sup = build_nodes(spec, xp="jnp" if jit_step else "np", trace=trace, clock=clock, vtime=vtime)
     ids = node_ids(spec)
     t0 = _time.time()
     g = ra.AsyncGraph(
@@ -192,7 +182,7 @@ def run_job(job, keep_graph=False):
         rs = dict(params=True, rng=True, inputs=True, state=True, output=True)
     g.set_record_settings(max_records=job.get("max_records", None), **rs)
     gs0 = g.init(jax.random.PRNGKey(job.get("seed", 0)))
-    g.warmup(gs0, jit_step=False)
+    g.warmup(gs0, jit_step=jit_step)
     out = dict(episodes=[], obs=[], finished=False, exc=None, calls=[])
 
     def user():
@@ -231,7 +221,9 @@ def run_job(job, keep_graph=False):
                 elif kind == "stop":
                     g.stop()
                     if running and cur is not None:
-                        cur["record"], cur["fallback"], _ = summarize_record(g)
+                        cur["record"], cur["fallback"], rexrec = summarize_record(g)
+                        if keep_graph:
+                            cur["_rexrec"] = rexrec
                         cur["trace_len"] = len(trace)
                     running = False
                 else:
